@@ -237,6 +237,21 @@ pub fn run(cx: &Cx) -> Report {
     let known = cx.known.clone();
     crate::regress::run(cx, &mut rep, &replay);
     rep.mark(cx, "regress");
+    // recorded finding F-11: `factorize` searches an exponential space. One fixed witness is
+    // timed on a worker of its own while the histories run; it is reported as KNOWN-FINDING when
+    // it overruns and said nothing about when it does not (never a violation: the classifier
+    // keeps such queries out of the generated histories as expensive)
+    const F11: &str = "hang:factorize-exponential-search";
+    let f11 = if known.contains(F11) {
+        Some(std::thread::spawn(|| {
+            let mut sup = Supervised::new(vec![json!({"cmd": "new_ctx"})]);
+            let t0 = std::time::Instant::now();
+            let out = sup.call(&json!({"cmd": "eval", "line": "factorize J^2", "save_prev": false}), Duration::from_secs(10));
+            (matches!(out, Ok(Outcome::Timeout(_))), t0.elapsed().as_secs_f64())
+        }))
+    } else {
+        None
+    };
     let k = known.clone();
     MAX_SHRINK_ITERS.store(250, std::sync::atomic::Ordering::Relaxed);
     let histories = cx.tier.pick(2400u64, 80_000);
@@ -258,6 +273,14 @@ pub fn run(cx: &Cx) -> Report {
         },
     ));
     rep.mark(cx, "histories");
+    if let Some(h) = f11 {
+        if let Ok((overran, secs)) = h.join() {
+            rep.stats.note("f11_witness", json!({"query": "factorize J^2", "budget_s": 10, "overran": overran, "seconds": secs}));
+            if overran {
+                rep.stats.known(F11, "factorize J^2");
+            }
+        }
+    }
     // thorough tier: what the libFuzzer campaign (started by ./check) saved is replayed here
     // through the supervised worker; only what reproduces is reported
     if cx.tier == Tier::Thorough {
